@@ -43,7 +43,12 @@ LEVEL_NOTE = ("Trusted: Coq kernel + stdlib real axioms (sig_forall_dec, sig_not
               "power dependence are covered by the oracle only); a dead parent weak reference; keyword errors of the "
               "bounding functions (missing power / range). Observation (outside the property statement, proved as "
               "reduction_change_keeps_stale_cache and seen on the real class): Accumulator.reduction() does not clear the "
-              "cached reductions, so a change of reduction after a read is ignored until the next append/delete.")
+              "cached reductions, so a change of reduction after a read is ignored until the next append/delete. "
+              "Finding candidate in binary64 only (the real-number theorem holds; witness C10/FloatWitness.v, replayed on the "
+              "real class by corpus/C10/004): under scaled power dependence of fractional order rounding can carry a parameter "
+              "1-2 ulp beyond a limit and the next update makes it NaN.  Both are reported as oracle failures (signatures "
+              "stale_reduction_cache / float_range_nan) once known_findings.json lists them, and counted in the evidence "
+              "until then.")
 HEADER = ("From Coq Require Import List ZArith Bool PrimFloat.\n"
           "From Inferno Require Import Base.Num Base.NumF C10.Updater C10.UpdaterExec.\n"
           "Import ListNotations.\nOpen Scope Z_scope.\n")
@@ -1066,7 +1071,7 @@ def stale_listed():
 
 def run(ctx):
     rng = random.Random(ctx["seed"])
-    n = 300 if ctx["tier"] == "quick" else 5000
+    n = 500 if ctx["tier"] == "quick" else 5000
     base = load_corpus() + gen_cases(rng, n)
     if ctx["tier"] == "thorough":
         base += exhaustive_cases(3)
